@@ -244,6 +244,9 @@ pub fn tree_changes(run: &RunResult) -> Vec<(String, &'static str)> {
     if run.before.dirs != run.after.dirs {
         out.push(("<directories>".into(), "dirs-changed"));
     }
+    if run.before.links != run.after.links {
+        out.push(("<symlinks>".into(), "links-changed"));
+    }
     out
 }
 
@@ -259,6 +262,9 @@ fn kinds_of_failure(ex: &Expected) -> String {
     let mut kinds: BTreeSet<&str> = BTreeSet::new();
     if !ex.selection.missing_args.is_empty() {
         kinds.insert("missing-path");
+    }
+    if !ex.selection.unreadable_dirs.is_empty() {
+        kinds.insert("unreadable-directory");
     }
     for fe in ex.per_file.values().chain(ex.stdin_expect.iter()) {
         match fe {
@@ -501,6 +507,9 @@ pub fn tree_oracle(property: &str, prefix: &str, inv: &Invocation, ex: &Expected
     if run.before.dirs != run.after.dirs {
         out.push(v(property, format!("{prefix}/directories-changed"), String::new(), idx));
     }
+    if run.before.links != run.after.links {
+        out.push(v(property, format!("{prefix}/symlinks-changed"), format!("{:?} -> {:?}", run.before.links, run.after.links), idx));
+    }
     out
 }
 
@@ -603,7 +612,8 @@ pub fn selection_oracle(property: &str, inv: &Invocation, world: &World, ex: &Ex
     let mut missing = Vec::new();
     for p in sel {
         if !reads.contains_key(p) {
-            let confirmed = match ex.per_file.get(p) {
+            let real = ex.real_of.get(p).cloned().unwrap_or_else(|| p.clone());
+            let confirmed = match ex.expect_for(p) {
                 Some(FileExpect::Changed(exp)) => {
                     if inv.opts.check {
                         match parse_reported(inv, world, &run.stdout) {
@@ -611,7 +621,7 @@ pub fn selection_oracle(property: &str, inv: &Invocation, world: &World, ex: &Ex
                             _ => !reads.is_empty(),
                         }
                     } else {
-                        run.after.files.get(p).map(|a| a.bytes != *exp).unwrap_or(true)
+                        run.after.files.get(&real).map(|a| a.bytes != *exp).unwrap_or(true)
                     }
                 }
                 _ => !reads.is_empty(),
